@@ -1677,6 +1677,10 @@ def search(ctx):
     for bad in check_cistrans():
         ctx.fail('C08/cis-trans-mark-misread', bad[1], {'kind': 'cistrans', 'smarts': bad[0][0], 'smiles': bad[0][1]})
         break
+    # 3d. tetrahedral marks: the pattern matches exactly the molecules of the same handedness
+    for bad in check_tetra():
+        ctx.fail('C08/tetrahedral-mark-misread', bad[1], {'kind': 'tetra', 'q': bad[0][0], 'm': bad[0][1], 'perm': bad[0][2]})
+        break
     # 4. from_atom reflexivity on real molecule atoms
     from chython.periodictable import QueryElement
     for name, m in mols[:200]:
@@ -1851,6 +1855,35 @@ def closure_search(ctx, t_end):
                 ctx.fail('C08/ring-closure-bond-misread', bad, {'kind': 'closure', 'x': x, 'y': y})
                 return
 
+
+def tetra_case(qmark, mmark, perm):
+    """pattern `[C<qmark>]([F])([Cl])([Br])[I]` on the molecule whose substituents are written in the order `perm`: the
+    tetrahedral marks agree iff (same mark) == (even permutation) — the SMILES chirality convention. Returns (expected, got)."""
+    from chython import smarts, smiles
+    subs = ['F', 'Cl', 'Br', 'I']
+    inv = sum(1 for i in range(4) for j in range(i + 1, 4) if perm[i] > perm[j])
+    q = smarts(f'[C{qmark}]([F])([Cl])([Br])[I]')
+    m = smiles(f'[C{mmark}](' + ')('.join(subs[i] for i in perm[:3]) + ')' + subs[perm[3]]) if mmark else smiles('C(F)(Cl)(Br)I')
+    got = bool(list(q.get_mapping(m, automorphism_filter=False, _cython=False)))
+    exp = bool(mmark) and ((qmark == mmark) == (inv % 2 == 0))
+    return exp, got
+
+
+def check_tetra():
+    bad = []
+    for qm in ('@', '@@'):
+        for mm in ('@', '@@', ''):
+            for perm in (itertools.permutations(range(4)) if mm else [(0, 1, 2, 3)]):
+                try:
+                    exp, got = tetra_case(qm, mm, perm)
+                except Exception as e:
+                    bad.append(((qm, mm, list(perm)), f'{type(e).__name__}: {e}'))
+                    continue
+                if exp != got:
+                    bad.append(((qm, mm, list(perm)), f'[C{qm}]([F])([Cl])([Br])[I] on [C{mm}] with substituent order {list(perm)}: '
+                                                        f'expected {"match" if exp else "no match"}, get_mapping {"match" if got else "no match"}'))
+    return bad
+
 def bond_search(ctx, t_end, texts):
     import time
     mols = [(n, m) for n, m in molecules(ctx) if len(m) <= 30]
@@ -1996,6 +2029,12 @@ def probe(inp):
             if got != exp:
                 return True, f'atom {n}: labels (neighbors, heteroatoms, hybridization, in_ring) {got}, independent computation {exp}'
         return False, 'labels agree with the independent computation'
+    if kind == 'tetra':
+        try:
+            exp, got = tetra_case(inp['q'], inp['m'], tuple(inp['perm']))
+        except Exception as e:
+            return True, f'{type(e).__name__}: {e}'
+        return exp != got, f'expected {"match" if exp else "no match"}, get_mapping {"match" if got else "no match"}'
     if kind == 'closure':
         bad = closure_case(inp['x'], inp['y'])
         return bool(bad), bad or f'closure bond {inp["x"]!r} / {inp["y"]!r} read as documented'
